@@ -29,6 +29,10 @@ func validatePerBlockReward(r interface{}) error {
 		if len(rr.Denom) == 0 {
 			return fmt.Errorf("denom of per block reward can not be empty")
 		}
+		// the begin blocker builds coins of this denomination: an invalid one would panic there
+		if err := sdk.ValidateDenom(rr.Denom); err != nil {
+			return fmt.Errorf("invalid per block reward: %w", err)
+		}
 		// the amount is nil when the JSON value of a parameter-change proposal omits it
 		if rr.Amount.IsNil() || rr.IsNegative() {
 			return fmt.Errorf("invalid per block reward: %v", rr)
